@@ -1,0 +1,172 @@
+//go:build verif
+
+package compiler
+
+// Verification hooks for property C19 (source maps). Add-only, compiled only with
+// `-tags verif`. Thin wrappers that make internal/sourcemapx (not importable from
+// outside this module) and the position bookkeeping of funcContext reachable from
+// the external harness /verif/harness/cmd/gvh_c19. No logic of their own.
+
+import (
+	"bytes"
+	"fmt"
+	"go/token"
+	"reflect"
+	"unsafe"
+
+	"github.com/gopherjs/gopherjs/internal/sourcemapx"
+)
+
+// VerifC19Magic is sourcemapx.HintMagic.
+const VerifC19Magic = sourcemapx.HintMagic
+
+func verifC19Catch(msg *string) {
+	if r := recover(); r != nil {
+		*msg = fmt.Sprint(r)
+	}
+}
+
+// VerifC19WriteHint runs the real Hint.WriteTo on a hint with the given payload.
+func VerifC19WriteHint(payload []byte) (encoded []byte, panicMsg string) {
+	defer verifC19Catch(&panicMsg)
+	h := sourcemapx.Hint{Payload: payload}
+	buf := &bytes.Buffer{}
+	if _, err := h.WriteTo(buf); err != nil {
+		panic(err)
+	}
+	return buf.Bytes(), ""
+}
+
+// VerifC19PackPos runs the real Hint.Pack(token.Pos) and returns the payload.
+func VerifC19PackPos(pos int) ([]byte, error) {
+	h := sourcemapx.Hint{}
+	if err := h.Pack(token.Pos(pos)); err != nil {
+		return nil, err
+	}
+	return h.Payload, nil
+}
+
+// VerifC19PackIdent runs the real Hint.Pack(Identifier) and returns the payload.
+func VerifC19PackIdent(name, originalName string, pos int) ([]byte, error) {
+	h := sourcemapx.Hint{}
+	if err := h.Pack(sourcemapx.Identifier{Name: name, OriginalName: originalName, OriginalPos: token.Pos(pos)}); err != nil {
+		return nil, err
+	}
+	return h.Payload, nil
+}
+
+// VerifC19EncodeIdentHint runs the real Identifier.EncodeHint (the complete encoded hint).
+func VerifC19EncodeIdentHint(name, originalName string, pos int) (encoded []byte, panicMsg string) {
+	defer verifC19Catch(&panicMsg)
+	return []byte(sourcemapx.Identifier{Name: name, OriginalName: originalName, OriginalPos: token.Pos(pos)}.EncodeHint()), ""
+}
+
+// VerifC19FindHint is sourcemapx.FindHint.
+func VerifC19FindHint(b []byte) int { return sourcemapx.FindHint(b) }
+
+// VerifC19ReadHint is sourcemapx.ReadHint with the panic turned into a message.
+func VerifC19ReadHint(b []byte) (payload []byte, length int, panicMsg string) {
+	defer verifC19Catch(&panicMsg)
+	h, n := sourcemapx.ReadHint(b)
+	return h.Payload, n, ""
+}
+
+// VerifC19Mapping is one call of the Go mapping callback of a Filter.
+type VerifC19Mapping struct {
+	GenLine, GenCol int
+	Orig            token.Position
+	Name            string
+}
+
+// verifC19SetGoCallback installs a recording callback into the unexported field
+// Filter.goMappingCallback (the same thing filter_test.go does from inside the package).
+func verifC19SetGoCallback(f *sourcemapx.Filter, rec func(int, int, token.Position, string)) {
+	fv := reflect.ValueOf(f).Elem().FieldByName("goMappingCallback")
+	if !fv.IsValid() {
+		panic("verif hook: sourcemapx.Filter has no field goMappingCallback")
+	}
+	dst := reflect.NewAt(fv.Type(), unsafe.Pointer(fv.UnsafeAddr())).Elem()
+	dst.Set(reflect.ValueOf(rec).Convert(fv.Type()))
+}
+
+// VerifC19RunFilter feeds the chunks, one Write call each, to a real sourcemapx.Filter.
+// With record=true a recording Go mapping callback is installed, otherwise the filter has no
+// callback (hints are only removed). Returns the bytes that reached the underlying writer, the
+// recorded mappings, the n returned by each Write and the panic message, if any.
+func VerifC19RunFilter(fset *token.FileSet, chunks [][]byte, record bool) (out []byte, maps []VerifC19Mapping, ns []int, panicMsg string) {
+	buf := &bytes.Buffer{}
+	defer func() { out = buf.Bytes() }()
+	defer verifC19Catch(&panicMsg)
+	f := &sourcemapx.Filter{Writer: buf, FileSet: fset}
+	if record {
+		verifC19SetGoCallback(f, func(l, c int, p token.Position, name string) {
+			maps = append(maps, VerifC19Mapping{GenLine: l, GenCol: c, Orig: p, Name: name})
+		})
+	}
+	for _, c := range chunks {
+		n, err := f.Write(c)
+		if err != nil {
+			panic(err)
+		}
+		ns = append(ns, n)
+	}
+	return
+}
+
+// VerifC19FilterJS writes the prefix chunks and then calls the real Filter.WriteJS on a filter with
+// the default callbacks enabled (EnableMapping, localMap so file names are kept as they are).
+// Returns the written bytes and the JSON source map produced by WriteMappingTo.
+func VerifC19FilterJS(fset *token.FileSet, prefix [][]byte, jsSource, jsPath string, minify bool, suffix [][]byte) (out []byte, mapJSON []byte, err error) {
+	defer func() {
+		if r := recover(); r != nil {
+			err = fmt.Errorf("panic: %v", r)
+		}
+	}()
+	buf := &bytes.Buffer{}
+	f := &sourcemapx.Filter{Writer: buf, FileSet: fset}
+	f.EnableMapping("out.js", "/goroot", "/gopath", true)
+	for _, c := range prefix {
+		if _, err := f.Write(c); err != nil {
+			return nil, nil, err
+		}
+	}
+	if jsPath != "" {
+		if _, err := f.WriteJS(jsSource, jsPath, minify); err != nil {
+			return nil, nil, err
+		}
+	}
+	for _, c := range suffix {
+		if _, err := f.Write(c); err != nil {
+			return nil, nil, err
+		}
+	}
+	mb := &bytes.Buffer{}
+	if err := f.WriteMappingTo(mb); err != nil {
+		return nil, nil, err
+	}
+	return buf.Bytes(), mb.Bytes(), nil
+}
+
+// VerifC19RemoveWhitespace is removeWhitespace (hint-preserving whitespace removal).
+func VerifC19RemoveWhitespace(b []byte, minify bool) (out []byte, panicMsg string) {
+	defer verifC19Catch(&panicMsg)
+	return removeWhitespace(b, minify), ""
+}
+
+// VerifC19Ctx drives the real output/position bookkeeping of a funcContext
+// (Write, Printf, SetPos, CatchOutput, Delayed, Indented).
+type VerifC19Ctx struct{ fc *funcContext }
+
+func VerifC19NewCtx(indentation int) *VerifC19Ctx {
+	return &VerifC19Ctx{fc: &funcContext{pkgCtx: &pkgContext{indentation: indentation}}}
+}
+func (c *VerifC19Ctx) SetPos(pos int)            { c.fc.SetPos(token.Pos(pos)) }
+func (c *VerifC19Ctx) Write(b []byte)            { c.fc.Write(b) }
+func (c *VerifC19Ctx) Printf(s string)           { c.fc.Printf("%s", s) }
+func (c *VerifC19Ctx) Indented(f func())         { c.fc.Indented(f) }
+func (c *VerifC19Ctx) Delayed(f func())          { c.fc.Delayed(f) }
+func (c *VerifC19Ctx) Output() []byte            { return c.fc.output }
+func (c *VerifC19Ctx) PosAvailable() (bool, int) { return c.fc.posAvailable, int(c.fc.pos) }
+func (c *VerifC19Ctx) CatchOutput(indent int, f func()) []byte {
+	return c.fc.CatchOutput(indent, f)
+}
